@@ -115,6 +115,7 @@ type c19subject struct {
 }
 
 var c19safe = false
+var c19deffn = false
 
 func c19values(p int) map[string]*variants.Variant {
 	return map[string]*variants.Variant{
@@ -123,6 +124,7 @@ func c19values(p int) map[string]*variants.Variant {
 		"arr": variants.VariantFromArray([]*variants.Variant{variants.VariantFromInteger(p), variants.VariantFromInteger(p + 2), variants.VariantFromString("x"), variants.VariantFromDouble(float64(p) + 1.5)}),
 		"f":   variants.VariantFromFloat(float32(p) + 0.25), "t": variants.VariantFromBoolean(p%2 == 0), "n": variants.EmptyVariant(),
 		"big": variants.VariantFromInteger(100 + p), "lbig": variants.VariantFromLong(int64(70 + p)),
+		"arrn": variants.VariantFromArray([]*variants.Variant{variants.VariantFromInteger(p), variants.EmptyVariant(), variants.VariantFromInteger(p + 2), variants.EmptyVariant(), variants.VariantFromString("x")}),
 	}
 }
 
@@ -175,7 +177,13 @@ func (s *c19subject) eval(p int, g *gater) string {
 	oc, _ := guarded(func() {
 		if s.what == "calc" {
 			vars := s.envs[p-1].(*variables.VariableCollection)
-			v, err := s.calc.EvaluateUsingVariablesAndFunctions(&gatedVars{vars, g, p}, &gatedFuncs{s.fns[p-1], g, p})
+			var v *variants.Variant
+			var err error
+			if c19deffn {
+				v, err = s.calc.EvaluateUsingVariables(&gatedVars{vars, g, p})
+			} else {
+				v, err = s.calc.EvaluateUsingVariablesAndFunctions(&gatedVars{vars, g, p}, &gatedFuncs{s.fns[p-1], g, p})
+			}
 			switch {
 			case err != nil:
 				res = "error:" + errCode(err)
@@ -524,10 +532,15 @@ func execRace(in Ev) []Ev {
 	off := &gater{off: true}
 	c19tmplGate.Store(nil)
 	switch mode {
-	case "shared-calculator", "shared-template", "shared-calculator-safe":
+	case "shared-calculator", "shared-template", "shared-calculator-safe", "shared-calculator-deffns":
 		what, text := "calc", "a + b * c - d + Sum(a, b, Min(c, d)) + arr[1]"
 		if mode == "shared-template" {
 			what, text = "tmpl", "Hello {{A}}{{#b}} [{{{C}}}]{{/b}}{{^d}} none{{/d}}!"
+		}
+		if mode == "shared-calculator-deffns" {
+			// every evaluation uses the calculator's own (shared) function table
+			c19deffn = true
+			defer func() { c19deffn = false }()
 		}
 		if mode == "shared-calculator-safe" {
 			// the type-safe operations manager installed: widening conversions of every kind inside the shared evaluation
@@ -671,7 +684,7 @@ func genC19(g *Gen) {
 	}
 	if g.Part == "race" {
 		gor, iters := g.Pick(8, 16), g.Pick(300, 3000)
-		for _, mode := range []string{"shared-calculator", "shared-template", "separate-instances", "shared-calculator-safe"} {
+		for _, mode := range []string{"shared-calculator", "shared-template", "separate-instances", "shared-calculator-safe", "shared-calculator-deffns"} {
 			g.Run("free-running goroutines: "+mode, []Ev{{"op": "race", "mode": mode, "goroutines": gor, "iters": iters}})
 		}
 		return
@@ -685,6 +698,7 @@ func genC19(g *Gen) {
 		{"calc", "If(n IS NULL, c, a) * c"}, {"calc", "Abs(d) + d + Abs(-f)"}, {"calc", "Min(d, a) - Max(d, c)"}, {"calc", "Max(c, f) / c"}, {"calc", "a % b + (a << 1) - d"},
 		{"calc", "Sum('a', 'b', 'c', 'd', 'e', 'f', 'g', 'h', 'i', 'j')"}, {"calc", "Sum(s, 'b', s, 'c', s, 'd', s, 'e', s, 'f') + s"}, {"calc", "Sum(1, 2, 3, 4, 5, 6, 7, 8, 9, 10, a) + Max(a, 1, 2, 3, 4, 5, 6, 7, 8, 9)"},
 		{"calc", "big + (1 << big)"}, {"calc", "(a >> 70) + 70 + (1 << 65)"}, {"calc", "(a << lbig) + lbig"}, {"calc", "Concat(s, 'x', s) + s"}, {"calc", "arr[0] + Array(a, b, s)[2] + Sum(arr[0], arr[1])"},
+		{"calc", "(n IN arrn) OR (b IN arrn) OR arrn[2] = b"}, {"calc", "(a NOT IN arrn) AND arrn[1] IS NULL AND arrn[4] = 'x'"}, {"calc", "If(s IN arrn, arrn[0], arrn[2]) + a"},
 		{"tmpl", "{{s}}-{{\u017f}}-{{S}}"}, {"tmpl", "{{k}}{{#\u03c3}}x{{/\u03c3}}{{\u03c2}}"},
 		{"tmpl", "{{A}}{{C}}"}, {"tmpl", "Hi {{A}}{{#b}}[{{{C}}}]{{/b}}{{^d}}n{{/d}}"},
 	}
